@@ -223,15 +223,20 @@ func runC12(seed int64, tier string, sc *Script) map[string]any {
 		wd1, wd2 := filepath.Join(base, "wd1"), filepath.Join(base, "wd2")
 		os.MkdirAll(wd1, 0o755)
 		os.MkdirAll(wd2, 0o755)
-		tree := genTree(rng, filepath.Join(wd1, "data"), tier == "thorough")
+		// top-level names that begin with dots without leaving the working directory are
+		// ordinary names
+		dirName := []string{"data", "..data", "data", "..2024_01_01.cfg", "..."}[ti%5]
+		oneName := []string{"one.bin", "one.bin", "..one.bin", ".one"}[ti%4]
+		sc.Count("top-level-names:" + dirName + "," + oneName)
+		tree := genTree(rng, filepath.Join(wd1, dirName), tier == "thorough")
 		single := []byte(fmt.Sprintf("single-file-%d", ti))
 		if ti%2 == 1 {
 			// the path handed to Add is itself a symbolic link to the file
 			os.WriteFile(filepath.Join(wd1, "one-v2.bin"), single, 0o640)
-			os.Symlink("one-v2.bin", filepath.Join(wd1, "one.bin"))
+			os.Symlink("one-v2.bin", filepath.Join(wd1, oneName))
 			sc.Count("single-file:added-through-a-symlink")
 		} else {
-			os.WriteFile(filepath.Join(wd1, "one.bin"), single, 0o640)
+			os.WriteFile(filepath.Join(wd1, oneName), single, 0o640)
 		}
 		dup := []byte(fmt.Sprintf("duplicate-bytes-%d", ti))
 		os.WriteFile(filepath.Join(wd1, "dup1"), dup, 0o644)
@@ -245,11 +250,11 @@ func runC12(seed int64, tier string, sc *Script) map[string]any {
 			panic(err)
 		}
 		fs1.TarReproducible = reproducible
-		dDir, err := fs1.Add(ctx, "data", "", "")
+		dDir, err := fs1.Add(ctx, dirName, "", "")
 		if err != nil {
 			panic(err)
 		}
-		dOne, err := fs1.Add(ctx, "one.bin", "application/vnd.verif.one", "")
+		dOne, err := fs1.Add(ctx, oneName, "application/vnd.verif.one", "")
 		if err != nil {
 			panic(err)
 		}
@@ -291,7 +296,7 @@ func runC12(seed int64, tier string, sc *Script) map[string]any {
 		stale := rng.Intn(2) == 0
 		if stale {
 			os.MkdirAll(wd2, 0o755)
-			os.WriteFile(filepath.Join(wd2, "one.bin"), append(append([]byte{}, single...), []byte("-STALE-TAIL-OF-AN-OLDER-VERSION")...), 0o644)
+			os.WriteFile(filepath.Join(wd2, oneName), append(append([]byte{}, single...), []byte("-STALE-TAIL-OF-AN-OLDER-VERSION")...), 0o644)
 			if !forceCAS {
 				// (with ForceCAS only one of the two duplicate names is materialised, so a stale
 				// file under the other name would legitimately stay)
@@ -327,14 +332,14 @@ func runC12(seed int64, tier string, sc *Script) map[string]any {
 		if cerr != nil {
 			res = "copy-failed:" + strings.ReplaceAll(cerr.Error(), " ", "_")
 		} else {
-			got, err := readTree(filepath.Join(wd2, "data"))
+			got, err := readTree(filepath.Join(wd2, dirName))
 			if err != nil {
 				res = "unreadable:" + strings.ReplaceAll(err.Error(), " ", "_")
 			} else {
 				res = diffTrees(expectTree(tree, umask, preserve), got)
 			}
 			if res == "same" {
-				if b, err := os.ReadFile(filepath.Join(wd2, "one.bin")); err != nil || !bytes.Equal(b, single) {
+				if b, err := os.ReadFile(filepath.Join(wd2, oneName)); err != nil || !bytes.Equal(b, single) {
 					res = "single-file-differs"
 				}
 			}
@@ -383,7 +388,7 @@ func runC12(seed int64, tier string, sc *Script) map[string]any {
 		v = "blob"
 		if perr != nil {
 			v = "push-failed"
-		} else if b, err := os.ReadFile(filepath.Join(base, "wd4", "data")); err != nil || !bytes.Equal(b, gzBytes) {
+		} else if b, err := os.ReadFile(filepath.Join(base, "wd4", dirName)); err != nil || !bytes.Equal(b, gzBytes) {
 			v = "not-the-gzip"
 		}
 		sc.Op(v, "tr skipunpack")
@@ -400,10 +405,10 @@ func runC12(seed int64, tier string, sc *Script) map[string]any {
 			v := "same"
 			if err := oras.CopyGraph(ctx, fs1, fs6, root, oras.DefaultCopyGraphOptions); err != nil {
 				v = "copy-failed:" + strings.ReplaceAll(err.Error(), " ", "_")
-			} else if got, err := readTree(filepath.Join(wd6, "data")); err != nil {
+			} else if got, err := readTree(filepath.Join(wd6, dirName)); err != nil {
 				v = "unreadable:" + strings.ReplaceAll(err.Error(), " ", "_")
 			} else if v = diffTrees(expectTree(tree, umask, preserve), got); v == "same" {
-				if b, err := os.ReadFile(filepath.Join(wd6, "one.bin")); err != nil || !bytes.Equal(b, single) {
+				if b, err := os.ReadFile(filepath.Join(wd6, oneName)); err != nil || !bytes.Equal(b, single) {
 					v = "single-file-differs"
 				}
 			}
@@ -418,14 +423,14 @@ func runC12(seed int64, tier string, sc *Script) map[string]any {
 			exec := func() ocispec.Descriptor {
 				f, _ := file.New(wd5)
 				f.TarReproducible = true
-				d, err := f.Add(ctx, "data", "", filepath.Join(wd1, "data"))
+				d, err := f.Add(ctx, dirName, "", filepath.Join(wd1, dirName))
 				if err != nil {
 					panic(err)
 				}
 				f.Close()
 				return d
 			}
-			filepath.Walk(filepath.Join(wd1, "data"), func(p string, info os.FileInfo, err error) error {
+			filepath.Walk(filepath.Join(wd1, dirName), func(p string, info os.FileInfo, err error) error {
 				if err == nil && info.Mode()&os.ModeSymlink == 0 {
 					os.Chtimes(p, time.Unix(1000000+int64(rng.Intn(1000)), 0), time.Unix(2000000+int64(rng.Intn(1000)), 0))
 				}
